@@ -43,12 +43,12 @@ theorem Dec_quo_le {a b r q : Int} (h : Dec.quo a b = some r) (hb : 0 < b) (hq :
       omega
 
 /-- a positive numerator over a positive divisor: the quotient is non-negative. -/
-theorem Dec_quo_nonneg {a b r : Int} (h : Dec.quo a b = some r) (ha : 0 ≤ a) (hb : 0 < b) : 0 ≤ r := by
+theorem Dec_quo_nonneg_pos {a b r : Int} (h : Dec.quo a b = some r) (ha : 0 ≤ a) (hb : 0 < b) : 0 ≤ r := by
   have := Dec_quo_ge (q := 0) h hb (by omega)
   omega
 
 /-- `x / x = 1` exactly. -/
-theorem Dec_quo_self {a r : Int} (h : Dec.quo a a = some r) (ha : 0 < a) : r = P18 := by
+theorem Dec_quo_same {a r : Int} (h : Dec.quo a a = some r) (ha : 0 < a) : r = P18 := by
   have h1 := Dec_quo_ge (q := 1) h ha (by omega)
   have h2 := Dec_quo_le (q := 1) h ha (by omega)
   omega
@@ -56,7 +56,7 @@ theorem Dec_quo_self {a r : Int} (h : Dec.quo a a = some r) (ha : 0 < a) : r = P
 /-! ## `Pow` with exponent exactly one -/
 
 /-- `Pow(y, 1) = y` exactly (integer part 1, zero fractional part, `Power(1)` multiplies by one). -/
-theorem pow_exp_one {y : Int} (h0 : 0 < y) (h2 : y < 2 * P18) : pow y P18 = some y := by
+theorem pow_one_exp {y : Int} (h0 : 0 < y) (h2 : y < 2 * P18) : pow y P18 = some y := by
   have hup : y ≤ decUpper ∧ -decUpper ≤ y := by
     have : 2 * P18 ≤ decUpper := by decide
     omega
@@ -162,10 +162,10 @@ theorem balCalcOut_lt_reserve_equal_weights {p : BalPool} {dIn dOut : String} {a
   rw [hi] at h1; injection h1 with h1; subst h1
   rw [ho] at h2; injection h2 with h2; subst h2
   rw [hw] at h3
-  have hwr : wr = P18 := Dec_quo_self h3 (by unfold toDec; exact Int.mul_pos (hw ▸ hw0) P18_pos)
+  have hwr : wr = P18 := Dec_quo_same h3 (by unfold toDec; exact Int.mul_pos (hw ▸ hw0) P18_pos)
   subst hwr
   obtain ⟨hy0, hy2⟩ := pow_some_domain h5
-  rw [pow_exp_one hy0 hy2] at h5
+  rw [pow_one_exp hy0 hy2] at h5
   injection h5 with h5; subst h5
   exact ((h6 hR).1).2 hy0
 
@@ -263,7 +263,7 @@ theorem balExitSwapOut_lt_reserve {p p' : BalPool} {denom : String} {amtOut maxS
         clear h
         have hP := P18_pos
         have hWpos : 0 < toDec p.totalWeight := by unfold toDec; exact Int.mul_pos (by omega) hP
-        have hnw0 : 0 ≤ nw := Dec_quo_nonneg hnw (by unfold toDec; exact Int.mul_nonneg (by omega) (by omega)) hWpos
+        have hnw0 : 0 ≤ nw := Dec_quo_nonneg_pos hnw (by unfold toDec; exact Int.mul_nonneg (by omega) (by omega)) hWpos
         have hnw1 : nw ≤ P18 := by
           have := Dec_quo_le (q := 1) hnw hWpos (by
             unfold toDec; rw [Int.one_mul]; exact Int.mul_le_mul_of_nonneg_right hW (by omega))
